@@ -259,7 +259,8 @@ def signature(v):
             if st.get("kind") == "builtin":
                 preds.add("builtin")
         for i, st in enumerate(l.get("stages", [])):
-            if i < len(l["stages"]) - 1 and any(r["k"] == "hs" and r.get("size", 0) > 65536 for r in st.get("redirs", [])):
+            # (word + newline exceed one pipe buffer from 65536 bytes on)
+            if i < len(l["stages"]) - 1 and any(r["k"] == "hs" and r.get("size", 0) >= 65536 for r in st.get("redirs", [])):
                 preds.add("here_string_over_64k_before_a_later_stage")
     if "shell blocked in write" in v["violation"].get("detail", ""):
         preds.add("shell_blocked_in_write")
